@@ -1097,7 +1097,10 @@ def _gdiscr_configs(thorough):
     for dt in ('float64', 'float32'):
         for p in (2, 1.5):
             out.append(GD([50001], [0.5], [(0.25, 1.25)], dt, p))
-    return out
+    # a single node with zero offsets on both sides is a domain of zero volume: no positive
+    # cell-volume weighting exists (ConstWeighting: "expected positive constant"), not admissible
+    return [c for c in out
+            if not any(n == 1 and ol + oh == 0 for n, (ol, oh) in zip(c['shape'], c['off']))]
 
 
 def _leaves():
